@@ -318,6 +318,9 @@ def np_eval_node(node, vals):
     ins = [vals[i] for i in node.get("in", [])]
     if op == "leaf":
         return leaf_data(p)
+    if op == "random":
+        # placeholder of the right shape/dtype: values of random arrays are judged by property oracles
+        return np.full(tuple(p["shape"]), 0.5, dtype=np.float64)
     if op == "pick":
         return ins[0][p["i"]]
     if op == "create":
@@ -533,6 +536,10 @@ def cu_eval_node(node, vals, env, idx):
                 return cubed.from_zarr(path, **skw)
             return xp.asarray(data, chunks=chunks, **skw)
         return xp.asarray(data, chunks=chunks, **skw)
+    if op == "random":
+        import cubed.random
+
+        return cubed.random.random(tuple(p["shape"]), chunks=tuple(p["chunks"]), **skw)
     if op == "pick":
         return ins[0][p["i"]]
     if op == "create":
@@ -895,6 +902,7 @@ class Gen:
             "concat": 5, "create": 3, "misc": 6, "multi": 3, "rechunk": 4,
         }
         fams.update(self.weights)
+        fams = {k: v for k, v in fams.items() if v > 0}
         names = list(fams)
         fam = rng.choices(names, weights=[fams[n] for n in names])[0]
         return getattr(self, "fam_" + fam)()
@@ -1504,6 +1512,13 @@ class Gen:
         for t in range(n):
             self._add({"op": "pick", "in": [k], "p": {"i": t}})
         return True
+
+    def fam_random(self):
+        rng = self.rng
+        shape = draw_shape(rng, self.maxdim, min(self.maxnd, 3), allow_zero=False)
+        if not shape:
+            shape = [rng.randint(2, self.maxdim)]
+        return self._add({"op": "random", "in": [], "p": {"shape": shape, "chunks": draw_chunks(rng, shape)}}) is not None
 
     def fam_rechunk(self):
         rng = self.rng
